@@ -250,6 +250,13 @@ class Representation(ObjectWithFields):
             rv.segment_duration = seg_dur
             file_size = rv.segments[-1].pos + rv.segments[-1].size - rv.segments[0].pos
             rv.bitrate = 8 * rv.timescale * file_size // rv.mediaDuration
+        # the values that the constructor derives from the list of segments,
+        # which was empty when this object was created
+        rv.num_media_segments = len(rv.segments) - 1
+        start: int = 0
+        for seg in rv.segments[1:]:
+            seg.start = start
+            start += seg.duration
         return rv
 
     def set_dash_timing(self, timing: DashTiming) -> None:
